@@ -2,6 +2,7 @@ import DryocVerif.Model.Sign
 import DryocVerif.Proofs.Sign
 import DryocVerif.Proofs.SignGroup
 import DryocVerif.Proofs.SignVectors
+import DryocVerif.Proofs.SignExtra
 /-!
 # C06 — Ed25519 signing glue (`Model/Sign.lean`)
 
@@ -20,11 +21,20 @@ What is proved unconditionally (for the model):
 * domain separation of the two modes at the level of hash INPUTS
   (`ph_vs_pure_inputs_differ`, `accepted_pure_input_ne_ph_input`).
 
+* all 14 encodings of libsodium's small-order table (7 entries × sign bit) are rejected
+  as `R` and as public key, for every other input (`blacklist_R_rejected`,
+  `blacklist_A_rejected`);
+
 What is proved only UNDER EXPLICIT, UNPROVED HYPOTHESES:
 * `verify_sign` is a theorem about an abstract `AddCommGroup`;
   `verify_sign_model` transfers it to the model under the hypothesis structure
   `EdwardsInterp` ("the Edwards arithmetic is a group; decode ∘ encode = id") — that
-  hypothesis is NOT proved, neither for the Lean curve functions nor for dalek;
+  hypothesis is NOT proved, neither for the Lean curve functions nor for dalek.
+  NO INSTANCE of `EdwardsInterp` is constructed anywhere: it is not even shown that the
+  structure is satisfiable.  Everything that takes an `EdwardsInterp`/`EdwardsInterpEnc`
+  argument (`verify_sign_model`, `seedKeypair_pk_eq_spec`, `sign_seedKeypair_eq_spec`,
+  `signPh_seedKeypair_eq_spec`) is a statement of the form "IF the curve arithmetic is a
+  group with these properties THEN …" and nothing more;
 * `verify_model_vs_spec` (dalek-style vs libsodium-style decision) uses per-input
   hypotheses listed in its docstring.
 -/
@@ -65,14 +75,23 @@ theorem signPrehashed_model_eq_spec (ph sk : Bytes)
     signDetached Spec.Sha512.sha512 ph sk true = signPhPrehashed (sk.take 32) ph :=
   signDetached_eq_signCore ph sk true hpk
 
-/-- **Ed25519ph**, incremental: for ANY split of the message into chunks, dryoc's
-`init; update…; final_create` = RFC 8032 Ed25519ph (empty context) of the concatenation -/
+/-- **Ed25519ph**: the model's pre-hashed signer = RFC 8032 Ed25519ph (empty context) of
+the concatenation of the chunks.
+
+CAVEAT: "for any split into chunks" is true BY CONSTRUCTION here.  `Model.Sign.signPh` is
+DEFINED as `signDetached H (H chunks.flatten) sk true`: the incremental SHA-512 state of
+`init; update…; final_create` lives in the `sha2` dependency and is not modelled, so the
+model simply hashes the flattened chunks.  The content of this theorem is the glue after
+the prehash (dom2 prefix, nonce, challenge, scalar arithmetic), not chunk-independence of
+the hasher; the latter is only tested differentially. -/
 theorem signPh_model_eq_spec (cs : List Bytes) (sk : Bytes)
     (hpk : sk.drop 32 = publicKey (sk.take 32)) :
     Model.Sign.signPh Spec.Sha512.sha512 cs sk = Spec.Ed25519.signPh (sk.take 32) cs.flatten :=
   signDetached_eq_signCore _ sk true hpk
 
-/-- chunking is irrelevant -/
+/-- chunking is irrelevant FOR THE MODEL — a definitional fact (`signPh` is defined on
+`cs.flatten`, see the caveat at `signPh_model_eq_spec`), not a theorem about the Rust
+incremental hasher, whose state is dependency code and is not modelled -/
 theorem signPh_chunking (H : Bytes → Bytes) (cs cs' : List Bytes) (sk : Bytes)
     (h : cs.flatten = cs'.flatten) : Model.Sign.signPh H cs sk = Model.Sign.signPh H cs' sk := by
   unfold Model.Sign.signPh; rw [h]
@@ -224,6 +243,50 @@ theorem undecodable_rejected (H : Bytes → Bytes) (sig msg pk : Bytes) (ph : Bo
   | inl h => rw [h] at hR; cases hR
   | inr h => rw [h] at hA; cases hA
 
+/-- **Small-order sweep, `R` position.**  For every entry `e` of libsodium's 7-entry
+small-order table and both values of the sign bit (bit 255 clear: `setSign e false = e`;
+set: `setSign e true`) — 14 encodings, pairwise different (`blacklist14_nodup`) — a
+signature whose first 32 bytes are that encoding is rejected by `verifyDetached`,
+whatever the remaining signature bytes `s`, message, public key, mode and hash function.
+(Each of the 14 IS accepted by the lenient decoder and decodes to a point with
+`[8]P = identity`: `blacklist_decodes_small`, one kernel evaluation of the finite table.) -/
+theorem blacklist_R_rejected (H : Bytes → Bytes) (e : Bytes) (he : e ∈ smallOrderBlacklist)
+    (sgn : Bool) (s m pk : Bytes) (ph : Bool) :
+    verifyDetached H (Proofs.SignExtra.setSign e sgn ++ s) m pk ph = false :=
+  Proofs.SignExtra.blacklist_R_rejected H e he sgn s m pk ph
+
+/-- **Small-order sweep, public-key position**: each of the 14 encodings is rejected as a
+public key, for every signature, message, mode and hash function. -/
+theorem blacklist_A_rejected (H : Bytes → Bytes) (e : Bytes) (he : e ∈ smallOrderBlacklist)
+    (sgn : Bool) (sig m : Bytes) (ph : Bool) :
+    verifyDetached H sig m (Proofs.SignExtra.setSign e sgn) ph = false :=
+  Proofs.SignExtra.blacklist_A_rejected H e he sgn sig m ph
+
+/-- what the sweep rests on: each of the 14 encodings has 32 bytes, is accepted by the
+lenient decoder, and the decoded point has small order -/
+theorem blacklist_decodes_small (e : Bytes) (he : e ∈ smallOrderBlacklist) (sgn : Bool) :
+    (Proofs.SignExtra.setSign e sgn).length = 32 ∧
+    ∃ P, decodePointLax (Proofs.SignExtra.setSign e sgn) = some P ∧ isSmallOrder P = true :=
+  Proofs.SignExtra.blacklist_decodes_small e he sgn
+
+/-- the 14 encodings are pairwise different (the sign bit of every table entry is clear) -/
+theorem blacklist14_nodup :
+    (smallOrderBlacklist.flatMap fun e =>
+      [Proofs.SignExtra.setSign e false, Proofs.SignExtra.setSign e true]).Nodup :=
+  Proofs.SignExtra.blacklist14_nodup
+
+/-- non-vacuity witness: the table has 7 entries; e.g. the order-4 point `y = 0` with the
+sign bit set (`00…00 80`) is one of the 14 and is rejected as `R` and as public key -/
+example : smallOrderBlacklist.length = 7 ∧ zeros 32 ∈ smallOrderBlacklist ∧
+    Proofs.SignExtra.setSign (zeros 32) true = zeros 31 ++ [0x80] ∧
+    verifyDetached Spec.Sha512.sha512 (zeros 31 ++ [0x80] ++ zeros 32) [] tvPk false = false ∧
+    verifyDetached Spec.Sha512.sha512 tvSig [] (zeros 31 ++ [0x80]) false = false := by
+  have hm : zeros 32 ∈ smallOrderBlacklist := by decide
+  have hs : Proofs.SignExtra.setSign (zeros 32) true = zeros 31 ++ [0x80] := by decide
+  refine ⟨by decide, hm, hs, ?_, ?_⟩
+  · rw [← hs]; exact blacklist_R_rejected _ _ hm true _ _ _ _
+  · rw [← hs]; exact blacklist_A_rejected _ _ hm true _ _ _
+
 /-- the complete acceptance condition (re-exported) -/
 theorem verifyDetached_true_iff (H : Bytes → Bytes) (sig msg pk : Bytes) (ph : Bool) :
     verifyDetached H sig msg pk ph = true ↔
@@ -256,7 +319,14 @@ theorem verify_sign {G : Type _} [AddCommGroup G] (B : G) (L : ℕ) (hB : L • 
 key pair from `seedKeypair` — CONDITIONAL on
 * `I : EdwardsInterp G valid φ`: the UNPROVED hypothesis that the curve functions
   `add`/`neg`/`scalarMul`/`pointEq` act as a commutative group through an interpretation
-  `φ` on `valid` points, that `[L]B = 0`, and that lenient decoding inverts encoding;
+  `φ` on `valid` points, that `[L]B = 0`, and that lenient decoding inverts encoding.
+  BLUNTLY: no instance of `EdwardsInterp` exists in this development, for any `G`,
+  `valid`, `φ`; its satisfiability is UNKNOWN as far as Lean is concerned (it is the
+  textbook statement that the twisted Edwards curve is a group and that `B` has order
+  `L`, which we did not formalise).  Until someone constructs an instance this theorem
+  establishes nothing unconditional about the model, let alone about dalek; the only
+  unconditional evidence for verify ∘ sign is the kernel-checked RFC 8032 vectors below
+  (TEST 1, TEST 2, the Ed25519ph vector) and the differential runs;
 * neither the decoded `R` nor the decoded public key has small order (dryoc rejects its
   own signature otherwise, e.g. when `r ≡ 0 mod L`). -/
 theorem verify_sign_model {G : Type _} [AddCommGroup G] {valid : Point → Prop} {φ : Point → G}
@@ -268,6 +338,48 @@ theorem verify_sign_model {G : Type _} [AddCommGroup G] {valid : Point → Prop}
     verifyDetached H (signDetached H msg (seedKeypair H seed).2 ph) msg (seedKeypair H seed).1 ph
       = true :=
   Proofs.SignGroup.verify_sign_of_interp I H seed msg ph hseed hRso hAso
+
+/-- **The public key dryoc derives is RFC 8032's, for every seed** — CONDITIONAL on the
+named curve facts only: `I : EdwardsInterpEnc` = `EdwardsInterp` plus the field
+`encode_congr` ("valid representatives of the same group element encode to the same
+32 bytes").  dryoc/dalek compute `[a mod L]B`, RFC 8032 `[a]B`; they agree by `[L]B = 0`.
+Same bluntness as for `verify_sign_model`: no instance of `EdwardsInterpEnc` exists here. -/
+theorem seedKeypair_pk_eq_spec {G : Type _} [AddCommGroup G] {valid : Point → Prop}
+    {φ : Point → G} (I : Proofs.SignGroup.EdwardsInterpEnc G valid φ) (seed : Bytes) :
+    (seedKeypair Spec.Sha512.sha512 seed).1 = publicKey seed :=
+  Proofs.SignGroup.seedKeypair_pk_eq_publicKey I seed
+
+/-- **Signing with a generated key pair is RFC 8032 `sign`, for every 32-byte seed and every
+message** — this removes the hypothesis `hpk` of `sign_model_eq_spec` for key pairs made by
+`crypto_sign_seed_keypair`, conditional on the named curve facts `I` only. -/
+theorem sign_seedKeypair_eq_spec {G : Type _} [AddCommGroup G] {valid : Point → Prop}
+    {φ : Point → G} (I : Proofs.SignGroup.EdwardsInterpEnc G valid φ) (seed msg : Bytes)
+    (hseed : seed.length = 32) :
+    signDetached Spec.Sha512.sha512 msg (seedKeypair Spec.Sha512.sha512 seed).2 false
+      = Spec.Ed25519.sign seed msg :=
+  Proofs.SignGroup.sign_seedKeypair_eq_signCore I seed msg false hseed
+
+/-- the same for the pre-hashed mode (see the caveat at `signPh_model_eq_spec` about what
+`signPh` models) -/
+theorem signPh_seedKeypair_eq_spec {G : Type _} [AddCommGroup G] {valid : Point → Prop}
+    {φ : Point → G} (I : Proofs.SignGroup.EdwardsInterpEnc G valid φ) (seed : Bytes)
+    (cs : List Bytes) (hseed : seed.length = 32) :
+    Model.Sign.signPh Spec.Sha512.sha512 cs (seedKeypair Spec.Sha512.sha512 seed).2
+      = Spec.Ed25519.signPh seed cs.flatten :=
+  Proofs.SignGroup.sign_seedKeypair_eq_signCore I seed _ true hseed
+
+/-- The CONCLUSIONS of the three conditional theorems above do hold, unconditionally, on the
+RFC 8032 vectors (kernel-checked) — evidence that the hypotheses are not contradictory
+with the actual arithmetic, though NOT an instance of `EdwardsInterpEnc` -/
+example : (seedKeypair Spec.Sha512.sha512 tvSeed).1 = publicKey tvSeed ∧
+    signDetached Spec.Sha512.sha512 [] (seedKeypair Spec.Sha512.sha512 tvSeed).2 false
+      = Spec.Ed25519.sign tvSeed [] := by
+  have hk := tv_keypair
+  have h1 : tvSk.take 32 = tvSeed := List.take_left' (by decide)
+  have h2 : tvSk.drop 32 = tvPk := List.drop_left' (by decide)
+  refine ⟨by rw [hk, tv_pk], ?_⟩
+  rw [hk, ← h1]
+  exact sign_model_eq_spec [] tvSk tv_sk_length (by rw [h1, h2, tv_pk])
 
 /-! ## 6. the two modes hash different strings -/
 
@@ -406,6 +518,43 @@ example : verifyDetached Spec.Sha512.sha512
 /-- the hypotheses of `verify_model_vs_spec` are jointly satisfiable -/
 example : verifyDetached Spec.Sha512.sha512 tvSig [] tvPk false = verifyCore [] tvPk [] tvSig :=
   tv_model_eq_spec
+
+/-- `verify_model_vs_spec` with `ph = true`: all six hypotheses hold on the RFC 8032 §7.3
+Ed25519ph vector ("abc"), and both sides are `true` -/
+example : verifyDetached Spec.Sha512.sha512 Proofs.SignExtra.phSig Proofs.SignExtra.phHash
+      Proofs.SignExtra.phPk true
+    = verifyCore (if true = true then dom2 1 [] else []) Proofs.SignExtra.phPk
+      Proofs.SignExtra.phHash Proofs.SignExtra.phSig ∧
+    verifyDetached Spec.Sha512.sha512 Proofs.SignExtra.phSig Proofs.SignExtra.phHash
+      Proofs.SignExtra.phPk true = true :=
+  ⟨verify_model_vs_spec _ _ _ true _ Proofs.SignExtra.ph_R_decodes Proofs.SignExtra.ph_hRcanon
+      Proofs.SignExtra.ph_dec_eq Proofs.SignExtra.ph_A_canon Proofs.SignExtra.ph_R_so
+      Proofs.SignExtra.ph_hsoA,
+    Proofs.SignExtra.ph_verify_detached⟩
+
+/-- the pre-hashed front ends on the RFC 8032 §7.3 vector: signing "a"‖"bc" gives the RFC's
+signature, verifying "ab"‖"c" accepts it, pure mode rejects it -/
+example : Model.Sign.signPh Spec.Sha512.sha512 [[0x61], [0x62, 0x63]]
+      (Proofs.SignExtra.phSeed ++ Proofs.SignExtra.phPk) = Proofs.SignExtra.phSig ∧
+    verifyPh Spec.Sha512.sha512 [[0x61, 0x62], [0x63]] Proofs.SignExtra.phSig
+      Proofs.SignExtra.phPk = true ∧
+    verifyDetached Spec.Sha512.sha512 Proofs.SignExtra.phSig Proofs.SignExtra.phHash
+      Proofs.SignExtra.phPk false = false :=
+  ⟨Proofs.SignExtra.ph_sign, Proofs.SignExtra.ph_verify, Proofs.SignExtra.ph_verify_pure⟩
+
+/-- `signOpen_ok_iff` with an ACCEPTING input (RFC 8032 §7.1 TEST 2, message `72`): the
+right-hand side holds, hence `crypto_sign_open` returns the message -/
+example : signOpen Spec.Sha512.sha512 1 (Proofs.SignExtra.tv2Sig ++ Proofs.SignExtra.tv2Msg)
+    Proofs.SignExtra.tv2Pk = .ok Proofs.SignExtra.tv2Msg := by
+  rw [signOpen_ok_iff]
+  have hl : Proofs.SignExtra.tv2Sig.length = 64 := by decide
+  refine ⟨by decide, by decide, ?_, ?_⟩
+  · rw [List.drop_left' hl]
+  · rw [List.take_left' hl, List.drop_left' hl]; exact Proofs.SignExtra.tv2_verify
+
+/-- … and a one-bit change of the message makes the same call fail -/
+example : signOpen Spec.Sha512.sha512 1 (Proofs.SignExtra.tv2Sig ++ [0x73])
+    Proofs.SignExtra.tv2Pk = .err := by decide +kernel
 
 /-- small-order rejection is not vacuous: the identity encodes as `01 00…00`, decodes,
 and has small order -/
